@@ -35,7 +35,10 @@ def sig_of(v, script):
     if cls.startswith("decode"):
         cls = "%s:%s" % (cls, d.get("which", "dec"))
         if kind in ("filepath", "fileheader", "newspath"):
-            qual = "name253-255" if any(253 <= n <= 255 for n in _seglens(obj)) else "name<253"
+            if sum(3 + n for n in _seglens(obj)) > 4096:
+                qual = "path>4096"      # the item list does not fit the path scanner's first buffer
+            else:
+                qual = "name253-255" if any(253 <= n <= 255 for n in _seglens(obj)) else "name<253"
         elif kind == "txn":
             m = max([len(f.get("data", [])) for f in obj.get("fields", [])] or [0])
             qual = "field>65532" if m > 65532 else "field<=65532"
